@@ -4,6 +4,7 @@
 use crate::fw::*;
 use crate::gen::registry::{registry, TypeEntry};
 use crate::gen::typed::G;
+use cardano_serialization_lib::*;
 use serde_json::json;
 use vkit::cddl::{validate, Opts};
 use vkit::rng::{Rng, LATTICE};
@@ -47,6 +48,7 @@ fn streams() -> Vec<Stream> {
         Stream { name: "wide-index", count: (nt * 20, nt * 400), exhaustive: false, run: wide_index },
         Stream { name: "builder-outputs", count: (30_000, 1_000_000), exhaustive: false, run: builder_outputs },
         Stream { name: "width-sweep", count: (nt * LATTICE.len() as u64 * 4, nt * LATTICE.len() as u64 * 40), exhaustive: false, run: width_sweep },
+        Stream { name: "bounded-constructors", count: (60_000, 2_000_000), exhaustive: false, run: bounded_constructors },
     ]
 }
 
@@ -110,6 +112,153 @@ fn gen_and_check_w(ctx: &mut Ctx, r: &mut Rng, e: &TypeEntry, depth: u32, coll: 
     };
     let opts = Opts { legacy_ok: tags.legacy, strict_output_assets: false, discipline: true, allow_empty_maps: false };
     check_bytes(ctx, e.name, e.cddl, &bytes, opts, if wide { "typed-api/wide-index" } else { "typed-api" });
+}
+
+/// text of about `target` UTF-8 bytes made of 1-, 2-, 3- and 4-byte characters (so that the number of
+/// characters, UTF-16 units and bytes all differ)
+fn unicode_text(r: &mut Rng, target: usize) -> String {
+    let pieces: &[&str] = match r.below(4) {
+        0 => &["a"],
+        1 => &["é"],
+        2 => &["a", "é", "€", "😀"],
+        _ => &["€", "😀", "x"],
+    };
+    let mut s = String::new();
+    while s.len() < target {
+        let p = pieces[r.usize(pieces.len())];
+        if s.len() + p.len() > target && r.bool() {
+            break;
+        }
+        s.push_str(p);
+    }
+    s
+}
+
+/// sizes around a limit: in bytes and (for multi-byte text) in characters
+fn around(r: &mut Rng, limit: usize) -> usize {
+    match r.below(8) {
+        0 => limit,
+        1 => limit + 1,
+        2 => limit.saturating_sub(1),
+        3 => limit * 2,
+        4 => limit * 4 + 1,
+        5 => limit + 2 + r.usize(6),
+        6 => 0,
+        _ => r.usize(limit + 1),
+    }
+}
+
+/// the constructors that enforce a CDDL size bound: whatever they ACCEPT must serialize to bytes the
+/// grammar allows (values on both sides of every bound, in bytes and in characters)
+fn bounded_constructors(ctx: &mut Ctx, r: &mut Rng, i: u64) {
+    let opts = Opts { legacy_ok: false, strict_output_assets: false, discipline: true, allow_empty_maps: false };
+    let kind = i / 16 % 14; // i is congruent to the shard number modulo 16
+    let accepted = |ctx: &mut Ctx, what: &str, ok: bool| ctx.bucket(&format!("bounded.{}.{}", what, if ok { "accepted" } else { "refused" }));
+    macro_rules! judged {
+        ($what:expr, $rule:expr, $make:expr) => {{
+            match guard(|| $make) {
+                Ok(Some(bytes)) => {
+                    accepted(ctx, $what, true);
+                    check_bytes(ctx, $what, $rule, &bytes, opts, "bounded-constructor");
+                }
+                Ok(None) => accepted(ctx, $what, false),
+                Err(p) => ctx.panic_seen(&p),
+            }
+        }};
+    }
+    match kind {
+        0 => {
+            let n = around(r, 64);
+            let t = unicode_text(r, n);
+            judged!("TransactionMetadatum::new_text", "transaction_metadatum", TransactionMetadatum::new_text(t.clone()).ok().map(|m| m.to_bytes()));
+        }
+        1 => {
+            let n = around(r, 64);
+            let b = r.bytes(n);
+            judged!("TransactionMetadatum::new_bytes", "transaction_metadatum", TransactionMetadatum::new_bytes(b.clone()).ok().map(|m| m.to_bytes()));
+        }
+        2 => {
+            let n = around(r, 128);
+            let t = unicode_text(r, n);
+            judged!("URL::new", "url128", URL::new(t.clone()).ok().map(|u| u.to_bytes()));
+        }
+        3 => {
+            let n = around(r, 128);
+            let t = unicode_text(r, n);
+            let h = AnchorDataHash::from_bytes(r.bytes(32)).unwrap();
+            judged!("Anchor(URL::new)", "anchor", URL::new(t.clone()).ok().map(|u| Anchor::new(&u, &h).to_bytes()));
+        }
+        4 => {
+            let n = around(r, 128);
+            let t = unicode_text(r, n);
+            let port = if r.bool() { Some(r.below(65536) as u16) } else { None };
+            judged!("DNSRecordAorAAAA::new", "relay", DNSRecordAorAAAA::new(t.clone()).ok().map(|d| Relay::new_single_host_name(&SingleHostName::new(port, &d)).to_bytes()));
+        }
+        5 => {
+            let n = around(r, 128);
+            let t = unicode_text(r, n);
+            judged!("DNSRecordSRV::new", "relay", DNSRecordSRV::new(t.clone()).ok().map(|d| Relay::new_multi_host_name(&MultiHostName::new(&d)).to_bytes()));
+        }
+        6 => {
+            let n = around(r, 32);
+            let b = r.bytes(n);
+            judged!("AssetName::new", "asset_name", AssetName::new(b.clone()).ok().map(|a| a.to_bytes()));
+        }
+        7 => {
+            let n = around(r, 4);
+            let b = r.bytes(n);
+            judged!("Ipv4::new", "ipv4", Ipv4::new(b.clone()).ok().map(|a| a.to_bytes()));
+        }
+        8 => {
+            let n = around(r, 16);
+            let b = r.bytes(n);
+            judged!("Ipv6::new", "ipv6", Ipv6::new(b.clone()).ok().map(|a| a.to_bytes()));
+        }
+        9 => {
+            // the JSON front ends reach the same bounds
+            let n = around(r, 64);
+            let t = unicode_text(r, n);
+            let schema = [MetadataJsonSchema::NoConversions, MetadataJsonSchema::BasicConversions, MetadataJsonSchema::DetailedSchema][r.usize(3)];
+            let doc = match (schema, r.below(3)) {
+                (MetadataJsonSchema::DetailedSchema, 0) => serde_json::json!({ "string": t }),
+                (MetadataJsonSchema::DetailedSchema, 1) => serde_json::json!({"map": [{"k": {"string": t}, "v": {"int": 1}}]}),
+                (MetadataJsonSchema::DetailedSchema, _) => serde_json::json!({"list": [{"string": t}]}),
+                (_, 0) => serde_json::json!(t),
+                (_, 1) => serde_json::json!({ t.clone(): 1 }),
+                (_, _) => serde_json::json!([t]),
+            };
+            judged!("encode_json_str_to_metadatum(text)", "transaction_metadatum", encode_json_str_to_metadatum(doc.to_string(), schema).ok().map(|m| m.to_bytes()));
+        }
+        10 => {
+            let n = around(r, 64);
+            let hexs = format!("0x{}", hx(&r.bytes(n)));
+            let detailed = r.bool();
+            let doc = if detailed { serde_json::json!({"bytes": &hexs[2..]}) } else { serde_json::json!(hexs) };
+            let schema = if detailed { MetadataJsonSchema::DetailedSchema } else { MetadataJsonSchema::BasicConversions };
+            judged!("encode_json_str_to_metadatum(bytes)", "transaction_metadatum", encode_json_str_to_metadatum(doc.to_string(), schema).ok().map(|m| m.to_bytes()));
+        }
+        11 => {
+            let n = around(r, 64);
+            let t = unicode_text(r, n);
+            judged!("MetadataMap::insert_str", "transaction_metadatum", {
+                let mut m = MetadataMap::new();
+                match m.insert_str(&t, &TransactionMetadatum::new_int(&Int::new_i32(1))) {
+                    Ok(_) => Some(TransactionMetadatum::new_map(&m).to_bytes()),
+                    Err(_) => None,
+                }
+            });
+        }
+        12 => {
+            let n = around(r, 64);
+            let b = r.bytes(n);
+            judged!("encode_arbitrary_bytes_as_metadatum", "transaction_metadatum", Some(encode_arbitrary_bytes_as_metadatum(&b).to_bytes()));
+        }
+        _ => {
+            let n = around(r, 64);
+            let b = r.bytes(n);
+            judged!("PlutusData::new_bytes", "plutus_data", Some(PlutusData::new_bytes(b.clone()).to_bytes()));
+        }
+    }
 }
 
 fn random(ctx: &mut Ctx, r: &mut Rng, i: u64) {
